@@ -1,7 +1,101 @@
-//! C07 (to be filled in)
+//! C07 — xcp always terminates: no deadlock, no spin, with or without errors
+
 use super::*;
-pub fn run(_ctx: &Ctx) -> Report {
-    let mut r = Report::new("model_checking", "not implemented");
-    r.machinery_errors.push("C07 not implemented yet".into());
-    r
+use crate::explore::{explore, Judge};
+use crate::monitor;
+use crate::scen::{Entry, Kind};
+use std::sync::Arc;
+
+pub fn special_sources(scen: &Scenario) -> Vec<String> {
+    scen.tree.iter().filter(|e| matches!(e.kind, Kind::Fifo | Kind::Socket | Kind::Chr(..) | Kind::Blk(..)) && !e.path.starts_with("dst")).map(|e| e.path.clone()).collect()
+}
+
+pub fn judge(_w: &Worker, scen: &Scenario, ex: &Exec) -> Judgement {
+    let mut v = vec![];
+    if ex.res.outcome.is_hang() {
+        v.push(format!("execution does not terminate: {}", ex.res.outcome.short()));
+    }
+    v.extend(monitor::opened_or_read(&ex.res, &special_sources(scen)));
+    if scen.prog == crate::scen::Prog::ApiProbe && !ex.res.outcome.is_hang() {
+        let out = String::from_utf8_lossy(&ex.res.stdout);
+        if !out.contains("COPY-RETURNED") {
+            v.push("library client: copy() did not return".into());
+        }
+        if scen.args.iter().any(|a| a == "chan") && !out.contains("CHANNEL-CLOSED") {
+            v.push("library client: the update channel did not close".into());
+        }
+    }
+    let mut j = simple_judge(v, ex, true);
+    // for termination the observable outcome is just the exit class
+    j.outcome_key = ex.res.outcome.short();
+    j
+}
+
+pub fn own_scenarios() -> Vec<Scenario> {
+    let mut v = vec![];
+    for d in drivers() {
+        let dr = |name: &str, tree: Vec<Entry>, args: &[&str]| {
+            let mut a: Vec<&str> = vec!["--driver", d];
+            a.extend_from_slice(args);
+            Scenario::new(&format!("{}-{}", name, d), tree, &a)
+        };
+        v.push(dr("empty-dir", vec![Entry::dir("src")], &["-r", "src", "dst"]));
+        v.push(dr(
+            "only-specials",
+            vec![Entry::dir("src"), Entry::new("src/f1", Kind::Fifo), Entry::new("src/f2", Kind::Fifo), Entry::new("src/s", Kind::Socket), Entry::dir("src/d"), Entry::new("src/d/f3", Kind::Fifo)],
+            &["-r", "-w", "2", "src", "dst"],
+        ));
+        v.push(dr("fifo-sole-source", vec![Entry::new("p", Kind::Fifo)], &["p", "q"]));
+        // the only worker fails on the first of four files (destination is a directory where a file must go)
+        v.push(dr(
+            "worker-fails-first",
+            vec![Entry::dir("src"), Entry::file("src/a", "aaaa"), Entry::file("src/b", "bbbb"), Entry::file("src/c", "cccc"), Entry::file("src/d", "dddd"), Entry::dir("dst"), Entry::dir("dst/a"), Entry::dir("dst/b"), Entry::dir("dst/c"), Entry::dir("dst/d")],
+            &["-r", "-T", "-w", "1", "--block-size", "2", "src", "dst"],
+        ));
+        v.push(dr(
+            "missing-dest-parent",
+            vec![Entry::dir("src"), Entry::file("src/a", "aaaa"), Entry::file("src/b", "bbbb")],
+            &["-r", "-w", "2", "src", "nowhere/dst"],
+        ));
+        v.push(dr(
+            "many-small-w3",
+            (0..12).map(|i| Entry::file(&format!("src/f{:02}", i), "0123456789abcdef")).fold(vec![Entry::dir("src")], |mut a, e| {
+                a.push(e);
+                a
+            }),
+            &["-r", "-w", "3", "--block-size", "4", "src", "dst"],
+        ));
+    }
+    v
+}
+
+pub fn run(ctx: &Ctx) -> Report {
+    let mut rep = Report::new(
+        "model_checking",
+        "all executions with at most d scheduling deviations (C06's sets plus termination-specific scenarios: empty tree, FIFOs/sockets only, failing worker, failing dispatcher), and every single injected system-call failure of C04's site list with and without one deviation; oracle: the supervisor owns all blocking (futex emulation), so 'no runnable thread' is deadlock, the step budget catches spinning, a blocking open/read of a FIFO is decided structurally; non-trivial = distinct system-call trace",
+    );
+    let j: Judge = &judge;
+    for (name, jobs) in sets::schedule_jobs(ctx.quick(), &|s| s) {
+        let st = explore(&ctx.pool, jobs, j);
+        rep.part(&name, st, serde_json::json!({"policies": ["P0", "P1"]}));
+    }
+    let d = if ctx.quick() { 1 } else { 2 };
+    let mut jobs = vec![];
+    for s in own_scenarios() {
+        let s = Arc::new(s);
+        for b in base_specs() {
+            jobs.push((s.clone(), b, d));
+        }
+    }
+    let st = explore(&ctx.pool, jobs, j);
+    rep.part("termination scenarios", st, serde_json::json!({"d": d}));
+    // fault runs: every single fault of C04's enumeration, re-judged for termination
+    let (st, nsites) = c04::fault_sweep(ctx, j, if ctx.quick() { 0 } else { 1 });
+    rep.part("single injected failures (C04's sites)", st, serde_json::json!({"sites": nsites, "deviations_on_top": if ctx.quick() { 0 } else { 1 }}));
+    if !ctx.pool.bins.apiprobe.is_empty() {
+        let st = explore(&ctx.pool, c12::api_jobs(ctx, true), j);
+        rep.part("library client (apiprobe): copy() returns and the channel closes", st, serde_json::json!({"d": 1}));
+    }
+    rep.assumptions = vec!["hangs are decided structurally by the supervisor; the wall-clock cap applies only to a thread stuck inside a real kernel call".into(), "step budget 200000 per execution".into()];
+    rep
 }
